@@ -133,6 +133,7 @@ def check_block(acc, refs, ests, neg_state=None, mr=None, me=None, count=True):
     res = {}
     for fn in RULES:
         acc.transitions += nr * ne
+        acc.tick(lambda: {"kind": "block", "refs": list(refs), "ests": list(ests[:50]), "fn": fn})
         err, out = _call_rule(fn, rl, el)
         if err is None:
             out = np.asarray(out)
@@ -284,6 +285,7 @@ def shard_self(arg):
 def check_self(acc, labels):
     for fn in RULES:
         acc.transitions += len(labels)
+        acc.tick(lambda: {"kind": "self", "labels": labels[:50], "fn": fn})
         err, out = _call_rule(fn, labels, labels)
         if err is not None:
             if len(labels) == 1:
@@ -324,7 +326,9 @@ def vectors(acc, labels, panel):
     out = np.zeros((n, len(RULES), 2, p))
     for k, fn in enumerate(RULES):
         acc.transitions += 2 * n * p
+        acc.tick(lambda: {"kind": "abstraction", "label": labels[0], "rep": labels[0], "panel": panel, "fn": fn})
         e1, r1 = _call_rule(fn, a, b)
+        acc.tick(lambda: {"kind": "abstraction", "label": labels[0], "rep": labels[0], "panel": panel, "fn": fn})
         e2, r2 = _call_rule(fn, b, a)
         if e1 is not None or e2 is not None:
             if n == 1:
